@@ -34,6 +34,17 @@ func H_C14_matrix() {
 	t := genTree(n, 2, false)
 	decorate(t, sxParam("lenmode", lenAll), sxParam("supmode", supPresent))
 	metric := c14metrics[sxChoose("metric", len(c14metrics))]
+	// the tree may have been indexed before, and tips renamed since (stale index)
+	switch sxChoose("prep", 3) {
+	case 1:
+		sxAssert(t.ReinitIndexes() == nil, "ReinitIndexes")
+	case 2:
+		sxAssert(t.ReinitIndexes() == nil, "ReinitIndexes")
+		tp := t.Tips()
+		a, b := tp[0].Name(), tp[len(tp)-1].Name()
+		tp[0].SetName(b)
+		tp[len(tp)-1].SetName(a)
+	}
 	want := distOf(t, n, c14metric(metric))
 	sxReach("ready")
 	m, tips := t.ToDistanceMatrix(metric)
@@ -95,7 +106,9 @@ func H_C14_avg() {
 func H_C14_cut() {
 	n := sxParam("n", 4)
 	t := genTree(n, 2, false)
-	decorate(t, lenAll, supNone)
+	// lenmode 2: a branch may have no length; the code documents nothing else
+	// than the numeric test `length < threshold`, with -1 standing for "absent"
+	decorate(t, sxParam("lenmode", lenAll), supNone)
 	theta := sxLen("theta")
 	// reference: union-find over tips along branches with length < theta
 	nodes := t.Nodes()
